@@ -2,6 +2,7 @@
 # byte-addressed object memory shared with the LLVM-IR front-end (llvm.py).
 # Deciding engine: z3 (in-process, incremental). See DESIGN.md section 2.
 import json, sys, time, itertools, os
+import os
 import z3
 
 sys.setrecursionlimit(100000)
@@ -518,6 +519,8 @@ class Executor:
     def check(self, *extra):
         t0 = time.time()
         r = self.solver.check(*[tobool(e) for e in extra])
+        if time.time() - t0 > 3 and os.environ.get('VERIF_SLOWQ'):
+            print('SLOWQ %.1fs %s last_event=%s extra=%s' % (time.time() - t0, r, self.events[-1:], [str(e)[:400] for e in extra]), flush=True)
         self.stats.solver_s += time.time() - t0
         self.stats.queries += 1
         if r == z3.sat:
@@ -1613,7 +1616,44 @@ class Executor:
         r = self.check()
         if r != z3.sat:
             return None
-        return self.model_tape(self.solver.model())
+        m = self.solver.model()
+        try:
+            m = self.diversify(m)
+        except z3.Z3Exception:
+            pass
+        return self.model_tape(m)
+
+    def diversify(self, m, extra=()):
+        """counterexample models: prefer pseudo-random non-zero values for the inputs the violation does not
+        depend on (z3 assigns 0 to everything it may, and all-zero inputs often hide a defect natively:
+        truncated copies of zeros, equal keys, ...). Greedy over chunks of preferences; bounded effort."""
+        import random as _r
+        rng = _r.Random(1000003 * (self.seed + 1))
+        prefs = []
+        for kind, c, w in self.nondets:
+            if w <= 64 and not isinstance(c, int) and z3.is_bv(c):
+                prefs.append(c == z3.BitVecVal(rng.randrange(1, 1 << w) if kind != 'bool' else rng.randrange(0, 2), w))
+        if not prefs:
+            return m
+        accepted = []
+        k = max(1, (len(prefs) + 3) // 4)
+        saved_to = self.timeout_ms
+        for i in range(0, len(prefs), k):
+            chunk = prefs[i:i + k]
+            self.solver.push()
+            try:
+                self.solver.set('timeout', 10000)
+                for e in extra:
+                    self.solver.add(e)
+                for e in accepted + chunk:
+                    self.solver.add(e)
+                if self.solver.check() == z3.sat:
+                    m = self.solver.model()
+                    accepted += chunk
+            finally:
+                self.solver.set('timeout', saved_to)
+                self.solver.pop()
+        return m
 
     def model_tape(self, m):
         out = []
@@ -1651,6 +1691,10 @@ class Executor:
                     if self.check() == z3.sat:
                         m = self.solver.model()
                     self.solver.pop()
+            try:
+                m = self.diversify(m, [z3.Not(c)])
+            except z3.Z3Exception:
+                pass
             vals = self.model_tape(m)
             raise PathEnd('assert_fail', {'msg': msg, 'model': vals})
         if r == z3.unknown:
